@@ -102,6 +102,7 @@ def main():
                          or l.startswith("TOOL-ERROR")]
                 first = [l for l in out.splitlines() if l and not l.startswith("[check]")][:2]
                 verdicts[c] = {"exit": rc, "lines": lines[:4], "first_output": [x[:300] for x in first],
+                               "tail_if_tool_error": out[-2500:] if rc not in (0, 1) else "",
                                "wall_s": round(time.time() - t0, 1)}
                 print(sid, c, "exit", rc, (first[0][:160] if first else ""), flush=True)
         finally:
